@@ -2,6 +2,7 @@ import Lm.Inv.ThpoolA
 import Lm.Inv.ThpoolB2
 import Lm.Inv.ThpoolC
 import Lm.Inv.ThpoolC3
+import Lm.Inv.ThpoolC4
 import Lm.Inv.ThpoolD
 /-! The invariant holds initially, is preserved by every transition, hence holds in every reachable state. -/
 namespace Lm.Thpool
@@ -80,6 +81,9 @@ theorem inv_step (hi : Inv s) (hp : pre s l = true) (h : step s l = some s') : I
   runningInv := runningInv_step hi h
   pendingInv := pendingInv_step hi h
   preEnqInv := preEnqInv_step hi h
+  discPhase := discPhase_step hi h
+  waitAlive := waitAlive_step hi h
+  mainWait := mainWait_step hi h
   finSupp := finSupp_step hi h
 
 theorem inv_reach {c : Cfg} (hc : 0 < c.maxThreads) {s : State} (hr : Reach c s) : Inv s := by
